@@ -267,22 +267,22 @@ impl World for Tok {
                 if !th && to == *from {
                     continue;
                 }
-                for a in dedup(vec![0, 1, al, al + 1]) {
+                for a in dedup(vec![0, 1, al, al.saturating_add(1)]) {
                     v.push(Op::TransferFrom { s: *s, from: *from, to, a });
                 }
             }
             if !vault && self.flavour != Flavour::BlockList && self.flavour != Flavour::Rwa {
-                for a in dedup(vec![0, 1, al, al + 1]) {
+                for a in dedup(vec![0, 1, al, al.saturating_add(1)]) {
                     v.push(Op::BurnFrom { s: *s, from: *from, a });
                 }
             }
             if vault {
-                for a in dedup(vec![0, 1, al, al + 1]) {
+                for a in dedup(vec![0, 1, al, al.saturating_add(1)]) {
                     v.push(Op::VRedeem { op: *s, owner: *from, a });
                     v.push(Op::VWithdraw { op: *s, owner: *from, a });
                 }
                 let aal = o.aallow[*from][*s];
-                for a in dedup(vec![0, 1, aal, aal + 1]) {
+                for a in dedup(vec![0, 1, aal, aal.saturating_add(1)]) {
                     v.push(Op::VDeposit { op: *s, from: *from, a });
                 }
                 for a in [0, 2] {
